@@ -102,6 +102,10 @@ inductive Kind where
   | pending                         -- MsgSendToFxClaim / MsgBridgeCallClaim / MsgBridgeCallResultClaim
   | other                           -- MsgBridgeTokenClaim: handler touches nothing modelled here
   | oracleSet (members : List Nat)  -- MsgOracleSetUpdatedClaim with these member external addresses
+  /-- a claim whose handler PANICS if it is run now (`OutgoingTxBatchExecuted` for a batch that is not in the store,
+  `UpdateOracleSetExecuted` for an oracle set that contradicts the stored one with the same nonce): the panic leaves
+  `processAttestation`'s cache context AND the whole claim message (round 4).  `members`: as for `oracleSet` (`[]` otherwise) -/
+  | panics (members : List Nat)
   deriving DecidableEq, Repr
 
 /-- how the deferred handler of one `ExecuteClaim` call ends:
@@ -133,6 +137,7 @@ inductive Op where
 
 inductive Out where
   | ok | signerMismatch | noOracle | offline | invalid | nonContiguous | belowMin | aboveMax | dep | notFound | execFailed
+  | panicked | undeliverable
   deriving DecidableEq, Repr
 
 /-! ## power -/
@@ -209,6 +214,7 @@ def insertNonce (l : List Nat) (n : Nat) : List Nat := if l.contains n then l el
 /-- `claimLogicCheck`: members of an oracle-set claim must be bound external addresses -/
 def logicCheck (s : State) : Kind → Bool
   | .oracleSet ms => ms.all (fun e => (s.byExt.get e).isSome)
+  | .panics ms => ms.all (fun e => (s.byExt.get e).isSome)
   | _ => true
 
 /-- `TryAttestation` + `processAttestation` + `pruneAttestations` for the attestation just voted on -/
@@ -251,6 +257,15 @@ def attest (s : State) (o n h : Nat) (kind : Kind) : State :=
   let s2 : State := if tallyCond s att n then tryAttest s1 att kind else s1
   { s2 with lastNonce := s2.lastNonce.set o n }
 
+/-- does the handler run in this `Attest` (the vote makes the attestation cross the bar at the next nonce)? -/
+def observesNow (s : State) (o n h : Nat) : Bool :=
+  tallyCond s (voteAtt s o n h) n && tally s.oracles (required s.lastTotalPower) (voteAtt s o n h).votes 0
+
+/-- a handler that panics when it is run undoes the whole claim message: the vote, the observation, the per-oracle nonce -/
+def handlerPanics (s : State) (o n h : Nat) : Kind → Bool
+  | .panics _ => observeRunsHandler && observesNow s o n h
+  | _ => false
+
 def claimStep (s : State) (wrapper inner n h : Nat) (kind : Kind) : State × Out :=
   if !validateBasic wrapper inner then (s, .signerMismatch) else
   match s.byBridger.get (voter wrapper inner) with
@@ -262,7 +277,14 @@ def claimStep (s : State) (wrapper inner n h : Nat) (kind : Kind) : State × Out
       if claimRequiresOnline && !orc.online then (s, .offline) else
       if !logicCheck s kind then (s, .invalid) else
       if attestChecksContiguity && n != effLast s o + 1 then (s, .nonContiguous) else
+      if handlerPanics s o n h kind then (s, .panicked) else
       (attest s o n h kind, .ok)
+
+/-- the same claim arriving inside a SIGNED TRANSACTION (wire round trip + ante handler + message router): it reaches
+`MsgServer.Claim` only if a transaction can carry it — regenerated `claimTxDeliverable` (`MsgClaim` registered as a message AND
+unpacking its wrapped claim); otherwise the transaction fails in `ValidateBasic` and nothing happens (round 4) -/
+def txClaimStep (s : State) (wrapper inner n h : Nat) (kind : Kind) : State × Out :=
+  if !claimTxDeliverable then (s, .undeliverable) else claimStep s wrapper inner n h kind
 
 def bondStep (s : State) (o b e amt : Nat) (dep : Bool) : State × Out :=
   if !s.proposal.contains o then (s, .noOracle) else
